@@ -99,9 +99,13 @@ ExecOp(op, E) ==
             IF r.ok /\ op.var \in DOMAIN E.dm /\ E.dm[op.var].def
             THEN [E EXCEPT !.dm[op.var] = [def |-> TRUE, v |-> r.v]]
             ELSE RaiseErr(E, ErrExec)
-      [] op.op = "send" ->      \* <send> to the session's own external queue, no delay
-            [E EXCEPT !.eq = Append(@, Ev(op.ev)),
-                      !.atoms = Append(@, Atom("send", op.ev, 0))]
+      [] op.op = "send" ->      \* <send> to the session's own external queue
+            IF op.delay = 0
+            THEN [E EXCEPT !.eq = Append(@, Ev(op.ev)),
+                           !.atoms = Append(@, Atom("send", op.ev, 0))]
+            \* delayed: held by the delay queue (dq) until its timer fires (ScxmlStep!EnvFire);
+            \* nothing reaches the external queue now, hence no atom
+            ELSE [E EXCEPT !.dq = Append(@, Ev(op.ev))]
       [] op.op = "if" -> ExecArms(op.arms, 1, E)
       [] op.op = "fault" ->
             IF op.kind \in {"sendtarget"} THEN RaiseErr(E, ErrComm)
